@@ -183,8 +183,12 @@ def _cls(tag, shape, ind):
     if shape == "self":
         return [p + "class K {", p + "\tn: int", p + "\tconstructor(self) {", p + f"\t\tself.n = {tag}", p + "\t}", p + "\tfn me(self) -> Self {", p + "\t\tself.n += 1",
                 p + "\t\treturn self", p + "\t}", p + "\tfn twin(self) -> Self {", p + "\t\treturn Self()", p + "\t}", p + "\tfn v(self) -> int {", p + "\t\treturn self.n", p + "\t}", p + "}"], \
-            "K().me().twin().me()", f"{tag + 1}"
+            "K()\nko = ko.me()\nko = ko.twin()\nko = ko.me()", f"{tag + 1}"       # (one postfix per atom: the chain goes through the variable)
     raise ValueError(shape)
+
+
+def _mk(mk, ind):
+    return ["\t" * ind + l for l in ("ko = " + mk).split("\n")]
 
 
 SAME_SCOPES = ["fn", "fn2", "if-arm", "else-arm", "nested-fn", "module", "loop"]
@@ -200,22 +204,22 @@ def same_name_program(s1, s2, shape, order):
         tag = 100 * i
         if sc == "module":
             c, mk, exp = _cls(tag, shape, 0)
-            lines += c + [f"r{i} = fn() -> int {{", f"\tko = {mk}", "\treturn ko.v()", "}"]
+            lines += c + [f"r{i} = fn() -> int {{"] + _mk(mk, 1) + ["\treturn ko.v()", "}"]
         elif sc in ("fn", "fn2"):
             c, mk, exp = _cls(tag, shape, 1)
-            lines += [f"r{i} = fn() -> int {{"] + c + [f"\tko = {mk}", "\treturn ko.v()", "}"]
+            lines += [f"r{i} = fn() -> int {{"] + c + _mk(mk, 1) + ["\treturn ko.v()", "}"]
         elif sc in ("if-arm", "else-arm"):
             c, mk, exp = _cls(tag, shape, 2)
             cond = "true" if sc == "if-arm" else "false"
-            arm = c + [f"\t\tko = {mk}", "\t\treturn ko.v()"]
+            arm = c + _mk(mk, 2) + ["\t\treturn ko.v()"]
             other = ["\t\treturn 0 - 1"]
             lines += [f"r{i} = fn() -> int {{", f"\tif {cond} {{"] + (arm if sc == "if-arm" else other) + ["\t} else {"] + (other if sc == "if-arm" else arm) + ["\t}", "}"]
         elif sc == "nested-fn":
             c, mk, exp = _cls(tag, shape, 2)
-            lines += [f"r{i} = fn() -> int {{", "\tinner = fn() -> int {"] + c + [f"\t\tko = {mk}", "\t\treturn ko.v()", "\t}", "\treturn inner()", "}"]
+            lines += [f"r{i} = fn() -> int {{", "\tinner = fn() -> int {"] + c + _mk(mk, 2) + ["\t\treturn ko.v()", "\t}", "\treturn inner()", "}"]
         elif sc == "loop":
             c, mk, exp = _cls(tag, shape, 2)
-            lines += [f"r{i} = fn() -> int {{", "\tacc = 0", "\tfrom 0 to 2 {"] + c + [f"\t\tko = {mk}", "\t\tacc = ko.v()", "\t}", "\treturn acc", "}"]
+            lines += [f"r{i} = fn() -> int {{", "\tacc = 0", "\tfrom 0 to 2 {"] + c + _mk(mk, 2) + ["\t\tacc = ko.v()", "\t}", "\treturn acc", "}"]
         runs[i] = exp
     out = []
     for i in order:
@@ -306,6 +310,20 @@ class C08(EHistCheck):
         if case[0] == "same":
             return {"class K declared in": [case[1], case[2]], "shape": case[3], "scopes exercised": list(SAME_ORDERS[case[4]])}
         return EHistCheck.describe(self, case)
+
+    def finish(self, stats, tier):
+        errs = EHistCheck.finish(self, stats, tier) or []
+        # a family whose programs the compiler refuses explores nothing (the `self` shape once was refused wholesale: a call chained onto a call)
+        t = stats["tags"]
+        if t.get("same", 0) or t.get("same-rejected", 0):
+            for sh in SAME_SHAPES:
+                if not t.get(f"same-{sh}"):
+                    errs.append(f"vacuity: no accepted program of the same-named-classes family with shape {sh}")
+            if t.get("same-rejected", 0) > t.get("same", 0):
+                errs.append(f"vacuity: {t.get('same-rejected')} programs of the same-named-classes family rejected, {t.get('same', 0)} accepted")
+        if (t.get("fieldname", 0) or t.get("fieldname-rejected", 0)) and t.get("fieldname-rejected", 0) >= t.get("fieldname", 0):
+            errs.append("vacuity: the field-name family is rejected by the compiler")
+        return errs
 
     def run_fieldname(self, case):
         from ..core import driver
